@@ -2,6 +2,11 @@
 """Regenerates MANIFEST.json from the table below (run after adding a property)."""
 import json, subprocess
 CLAIMED = {
+ "C01": dict(
+   text="Differential testing against an independent big-step reference semantics with exact dyadic arithmetic over tape-generated core-language programs (thousands per run, every construct nested in every other); output bytes, error code and error position compared. Three-valued: cases the statements do not determine are discarded and counted. Explored-set assurance only.",
+   note="Trusted: the reference semantics (DESIGN.md Appendix A), the IR printer's site map, the hook run entry. Failures that pass through a listed known-defect trigger are attributed to that finding.",
+   technique="proptest tape-decoded program generation + differential oracle (reference semantics)",
+   design="6/C01"),
  "C19": dict(
    text="Generated-input search with an exact machine oracle: the integer primitives are enumerated completely (all 65536 INTEGER values; all pairs of a boundary set) and sampled by millions of random pairs, the double encoders by every power of two, boundary mantissas, subnormals and random bit patterns; program-level cases go through the whole pipeline. Absence of a counterexample on the explored set, not a proof.",
    note="Trusted: Rust's i16/f64 bit operations as the reference; the harness's decoding of operands. qb_and/qb_or only with 16-bit operands.",
